@@ -211,13 +211,26 @@ int main(int argc, char **argv)
       bool add = false;
       bool remap_expected = (fmt == "multicolR");   // the re-gridding loop always ends with the stream at EOF in the failed state
       if (remap_expected) fmt = "multicol";
+      bool via_file = (fmt == "multicolF");
+      if (via_file) fmt = "multicol";
       if (fmt == "multicol") add = ni() != 0;
       gspec sp = read_spec(a, p);
       colvar_grid<double> g; fill_grid(g, sp);
       std::istringstream is(text_arg(line));
       cvm::clear_error();
-      if (fmt == "multicol") g.read_multicol(is, add); else g.read_raw(is);
-      bool bad = (!is) || (cvm::get_error() != COLVARS_OK);
+      bool bad;
+      if (via_file) {
+        // the file-name variant: read_multicol(filename, description, add) and its return code
+        std::string fn = "c15_gr.dat";
+        { std::ofstream f(fn.c_str()); f << text_arg(line); }
+        int rcode = g.read_multicol(fn, "grid file", add);
+        bad = (rcode != COLVARS_OK) || (cvm::get_error() != COLVARS_OK);
+        proxy->close_input_streams();
+        remove(fn.c_str());
+      } else {
+        if (fmt == "multicol") g.read_multicol(is, add); else g.read_raw(is);
+        bad = (!is) || (cvm::get_error() != COLVARS_OK);
+      }
       if (bad) std::cout << "ERR\n"; else print_grid(g);
       cvm::clear_error();
     } else if (cmd == "OPB") {
